@@ -18,7 +18,7 @@ CLAIMED = {
      note='Trusted: numpy float64 two-pass reference. First batch has positive total weight; max_abs_value=None.'),
   'C16': dict(engine='envs', design='5/C16',
      technique='deterministic simulation: seeded reset keys and adversarial action schedules (uniform, bang-bang, held, chatter, zero-then-bang) with auto-reset boundaries inside the history; per-step on-device safety invariants; cross-process replay digests and duplicate-member determinism',
-     text='All 11 registered physics environments on every native backend they accept are driven through training.wrap for 200-1000 wrapped steps in batches of 8-128; after every step all observations, rewards, done flags, q, qd, link poses and velocities must be finite and link quaternions unit; shapes match the declared sizes; done=0 at reset; the same genome re-executed in another process and a duplicated member must give bit-identical results. Sampled exploration, float32 (the precision the bundled envs run in).',
+     text='All 11 registered physics environments on every native backend they accept are driven through training.wrap for 200-1000 wrapped steps in batches of 8-128, plus held-corner sweeps (64 members each holding its own extreme corner of the action box for 96 steps) on humanoid and humanoidstandup/generalized in every tier; after every step all observations, rewards, done flags, q, qd, link poses and velocities must be finite and link quaternions unit; shapes match the declared sizes; done=0 at reset; the same genome re-executed in another process and a duplicated member must give bit-identical results. Sampled exploration, float32 (the precision the bundled envs run in).',
      note='Trusted: XLA CPU with pinned flags. mjx backend not exercised. Unit-quaternion tolerance 2e-6 in float32. swimmer/generalized cannot be stepped on the pinned jax (jp.clip a_min keyword): listed in known_findings.json, printed as KNOWN-FINDING on every run.'),
   'C04': dict(engine='c04', design='5/C04',
      technique='deterministic simulation: seeded worlds (generated free-rooted forests, two- and three-body collision scenes, rest scenes) stepped as vmapped lanes with seeded control schedules and kick/spin/displace disturbances injected through pipeline.init; conservation invariant evaluated after every step',
